@@ -537,5 +537,40 @@ fn main() {
             run_long(c, lx)
         },
     );
+    // one lane longer than 2^24 + 1 elements (positions that single precision cannot hold)
+    rep.run_sub(
+        "huge-lane",
+        "one lane of 2^24 + 2 distinct u32 values (increasing; middle pivots): Lower / Higher / Linear at q = 0, 1/2, 1 - the minimum, the two middle elements (their mean), the maximum",
+        std::iter::once((1usize << 24) + 2),
+        |n, lx| {
+            use ndarray_stats::interpolate::{Higher, Linear, Lower};
+            lx.nontrivial(true);
+            let n = *n;
+            lx.single(|lx| {
+                let base: Array1<u32> = Array1::from_iter(0..n as u32);
+                let mut obs = Vec::new();
+                let mid = ((n - 1) / 2) as u32; // (N-1)/2 = mid + 1/2
+                for (q, lo, hi, lin) in [(0.0, 0u32, 0u32, 0u32), (1.0, n as u32 - 1, n as u32 - 1, n as u32 - 1), (0.5, mid, mid + 1, mid)] {
+                    for strat in 0..3u8 {
+                        let mut a = base.clone();
+                        let r = guarded(|| match strat {
+                            0 => a.quantile_mut(n64(q), &Lower),
+                            1 => a.quantile_mut(n64(q), &Higher),
+                            _ => a.quantile_mut(n64(q), &Linear),
+                        });
+                        let want = [lo, hi, lin][strat as usize];
+                        match r {
+                            Ok(Ok(v)) => {
+                                lx.check(v == want, "C01/wrong-value", || format!("lane of {} elements 0..: quantile_mut({}, {}) = {}, expected {}", n, q, ["Lower", "Higher", "Linear"][strat as usize], v, want));
+                                obs.push(v);
+                            }
+                            other => lx.fail("C01/panic", || format!("lane of {} elements: quantile_mut({}) failed: {:?}", n, q, other)),
+                        }
+                    }
+                }
+                hash_of(&obs)
+            });
+        },
+    );
     rep.finish();
 }
